@@ -21,7 +21,7 @@ type Case struct {
 	Clauses [][]int `json:"clauses"` // as written
 	Entry   string  `json:"entry"`   // slice | slicenb | cnf
 	Cert    bool    `json:"cert"`    // certificate generation on
-	NbMax   int     `json:"nbmax"`   // lowered learned-clause limit (0 = default); always > N
+	NbMax   int     `json:"nbmax"`   // lowered learned-clause limit (0 = default)
 	Family  string  `json:"family,omitempty"`
 }
 
@@ -36,9 +36,6 @@ func declared(c Case) int {
 // check solves the case and validates the answer. big selects validation of the answer
 // (model evaluation / independent refutation replay / DPLL) instead of a truth table.
 func check(c Case, o *vf.Obs) error {
-	if c.NbMax != 0 && c.NbMax <= c.N {
-		return fmt.Errorf("%w: harness bug, nbmax %d <= n %d", vf.ErrInconclusive, c.NbMax, c.N)
-	}
 	gs.Arm(c.NbMax, gs.DefaultStepLimit)
 	defer gs.Arm(0, 0)
 	n := declared(c)
@@ -142,13 +139,15 @@ func check(c Case, o *vf.Obs) error {
 func genConfig(t *rapid.T, n int) (entry string, cert bool, nbmax int) {
 	entry = rapid.SampledFrom([]string{"slice", "slicenb", "cnf"}).Draw(t, "entry")
 	cert = rapid.Bool().Draw(t, "cert")
-	switch rapid.IntRange(0, 3).Draw(t, "nbmaxSel") {
+	switch rapid.IntRange(0, 4).Draw(t, "nbmaxSel") {
 	case 1:
 		nbmax = n + 1
 	case 2:
 		nbmax = n + 4
 	case 3:
 		nbmax = 2*n + 1
+	case 4:
+		nbmax = rapid.IntRange(1, 8).Draw(t, "tinyLimit") // sound since 88df0d1 (reduction with no stored clause)
 	}
 	return
 }
@@ -187,7 +186,24 @@ func genChain(t *rapid.T) Case {
 // pigeonhole formulas, optionally mixed with a few random clauses.
 func genHard(t *rapid.T) Case {
 	var c Case
-	switch rapid.IntRange(0, 3).Draw(t, "family") {
+	switch rapid.IntRange(0, 4).Draw(t, "family") {
+	case 4: // every conflict learns a unit clause: pairs (x y) (x -y), so a reduction can meet an empty learned database
+		k := gen.Uniform(t, 2, 9, "pairs")
+		var cls [][]int
+		for i := 0; i < k; i++ {
+			x, y := 2*i+1, 2*i+2
+			if rapid.Bool().Draw(t, "negx") {
+				x = -x
+			}
+			cls = append(cls, []int{x, y}, []int{x, -y})
+		}
+		for i, m := 0, rapid.IntRange(0, 3).Draw(t, "more"); i < m; i++ {
+			cls = append(cls, gen.DistinctLits(t, 2*k, 3, "e"))
+		}
+		c = Case{N: 2 * k, Clauses: rapid.Permutation(cls).Draw(t, "order"), Family: "unit-conflicts"}
+		c.Entry, c.Cert, _ = genConfig(t, c.N)
+		c.NbMax = rapid.IntRange(1, k).Draw(t, "limit")
+		return c
 	case 3: // many binary clauses: learned clauses are short, with low LBD, and often binary themselves
 		n := gen.Uniform(t, 16, 20, "n")
 		cls := gen.KSAT(t, n, gen.Uniform(t, n, 16*n/10, "m2"), 2)
@@ -207,6 +223,9 @@ func genHard(t *rapid.T) Case {
 	c.Entry, c.Cert, _ = genConfig(t, c.N)
 	if !gen.Chance(t, 1, 5, "defaultLimit") {
 		c.NbMax = c.N + 1 + rapid.IntRange(0, 3).Draw(t, "over")
+		if rapid.Bool().Draw(t, "tiny") {
+			c.NbMax = rapid.IntRange(2, 14).Draw(t, "tinyLimit") // several reductions per run
+		}
 	}
 	return c
 }
@@ -322,7 +341,7 @@ func init() {
 		},
 		vf.Sub[Case]{
 			Name: "random-small", Quick: 12000, Thorough: 150000, Gen: genSmall, Check: check, Floor: 0.15,
-			Rule: "n in 1..10, 0..40 clauses of length 0..5 with duplicate literals, tautologies, units, empty clauses, unused declared variables; entry ParseSlice|ParseSliceNb|ParseCNF x certificate on/off x learned-clause limit {default,n+1,n+4,2n+1}; truth-table oracle; non-trivial = not decided at parse time and >=1 decision",
+			Rule: "n in 1..10, 0..40 clauses of length 0..5 with duplicate literals, tautologies, units, empty clauses, unused declared variables; entry ParseSlice|ParseSliceNb|ParseCNF x certificate on/off x learned-clause limit {default,1..8,n+1,n+4,2n+1}; truth-table oracle; non-trivial = not decided at parse time and >=1 decision",
 		},
 		vf.Sub[Case]{
 			Name: "propagation-chains", Quick: 8000, Thorough: 100000, Gen: genChain, Check: check, Floor: 0.4,
@@ -334,9 +353,9 @@ func init() {
 			Rule:    "uniform 3-SAT, distinct variables per clause, n in 14..20, ratio 4.1..4.6, lowered learned-clause limit in most cases; truth-table oracle (2^n assignments); non-trivial as above",
 		},
 		vf.Sub[Case]{
-			Name: "hard-small-xor-php", Quick: 1600, Thorough: 20000, Gen: genHard, Check: check, Floor: 0.8,
+			Name: "hard-small-xor-php", Quick: 4000, Thorough: 20000, Gen: genHard, Check: check, Floor: 0.8,
 			Classes: map[string]float64{"conflicts>=20": 0.12, "reduceDB>0": 0.06},
-			Rule:    "random 3-parity systems (n in 14..20, about n constraints, 4 clauses each) and pigeonhole formulas PHP(4,3)/PHP(5,4), mixes of random 2- and 3-clauses at n 16..20 (variables renamed, polarities flipped, clauses shuffled, sometimes one pigeon dropped), plus 0..3 random clauses; learned-clause limit n+1..n+4 in 80% so clause-database reduction happens under the truth-table oracle; non-trivial as above",
+			Rule:    "random 3-parity systems (n in 14..20, about n constraints, 4 clauses each) and pigeonhole formulas PHP(4,3)/PHP(5,4), mixes of random 2- and 3-clauses at n 16..20 (variables renamed, polarities flipped, clauses shuffled, sometimes one pigeon dropped), plus 0..3 random clauses; learned-clause limit n+1..n+4 or 2..14 in 80% so clause-database reductions (several per run with the tiny limits) happen under the truth-table oracle; a family of (x y)(x -y) pairs whose conflicts all learn unit clauses; non-trivial as above",
 		},
 		vf.Sub[Case]{
 			Name: "search-heavy-3sat", Quick: 250, Thorough: 2500, Gen: genHeavy, Check: check, Floor: 0.9,
